@@ -71,11 +71,27 @@ func genConfig(rt *rapid.T, p *Profile) Config {
 		cfg.ServerV6 = true
 		nc = min(nc, 2)
 		cfg.Clients = []int{4, 5}[:nc]
+	} else if p.V6 && rapid.IntRange(0, 5).Draw(rt, "dualStack") == 0 {
+		// one wildcard listener serving both families: an IPv4 client, an IPv6 client whose
+		// address bytes resemble it, then whoever else
+		cfg.DualStack = true
+		pair := rapid.SampledFrom([][]int{{0, 6}, {2, 7}, {1, 8}, {3, 9}, {0, 4}}).Draw(rt, "dualPair")
+		rest := rapid.Permutation([]int{0, 1, 2, 3, 4, 5, 6, 7, 8, 9}).Draw(rt, "dualRest")
+		cfg.Clients = append([]int{}, pair...)
+		if rapid.Bool().Draw(rt, "dualSwap") {
+			cfg.Clients[0], cfg.Clients[1] = cfg.Clients[1], cfg.Clients[0]
+		}
+		for _, r := range rest {
+			if r != pair[0] && r != pair[1] && len(cfg.Clients) < max(nc, 2) {
+				cfg.Clients = append(cfg.Clients, r)
+			}
+		}
+		nc = len(cfg.Clients)
 	} else {
 		perm := rapid.Permutation([]int{0, 1, 2, 3}).Draw(rt, "clientPool")
 		cfg.Clients = perm[:nc]
 	}
-	if p.Streams && !cfg.ServerV6 {
+	if p.Streams && !cfg.ServerV6 && !cfg.DualStack {
 		for i := 0; i < nc; i++ {
 			if rapid.IntRange(0, 2).Draw(rt, "stream") == 0 {
 				cfg.Stream = append(cfg.Stream, i)
@@ -163,7 +179,7 @@ func genStep(rt *rapid.T, p *Profile, cfg *Config, i int) Step { //nolint:cyclop
 	st := Step{Op: pickOp(rt, p, "op"), Life: -1}
 	st.C = rapid.IntRange(0, nc-1).Draw(rt, "c")
 	peer := func(label string) int {
-		if cfg.ServerV6 || rapid.IntRange(0, 9).Draw(rt, label+"v6") == 0 {
+		if cfg.ServerV6 || (cfg.v6Client(st.C) && !cfg.Strict) || rapid.IntRange(0, 9).Draw(rt, label+"v6") == 0 {
 			return rapid.SampledFrom([]int{4, 7, 8, 4, 7, 0, 6}).Draw(rt, label) // mostly the IPv6 peers
 		}
 
@@ -307,7 +323,7 @@ func genFragment(rt *rapid.T, p *Profile, cfg *Config) []Step {
 	c := rapid.IntRange(0, len(cfg.Clients)-1).Draw(rt, "fc")
 	peer := rapid.IntRange(0, 2).Draw(rt, "fpeer")
 	peer2 := (peer + 1 + rapid.IntRange(0, 1).Draw(rt, "fpeer2")) % 3
-	if cfg.ServerV6 && !cfg.Strict {
+	if (cfg.ServerV6 || cfg.v6Client(c)) && !cfg.Strict {
 		// IPv6 allocations: use the IPv6 peers (4 and 8 share an address, 7 is another host)
 		v6 := []int{4, 7, 8}
 		k := rapid.IntRange(0, 2).Draw(rt, "fpeer6")
